@@ -2,7 +2,7 @@
 
 use std::fs::File;
 use std::io::{Error, ErrorKind, Write};
-use std::path::PathBuf;
+use std::path::{Component, Path, PathBuf};
 use std::process::{Child, Command, ExitCode, Stdio};
 
 use clap::Parser;
@@ -156,6 +156,20 @@ fn write_generated_file(
     output_dir: &Option<String>,
 ) -> std::io::Result<()> {
     let generated_file_bytes = generated_file.contents.as_bytes();
+
+    // A relative path is placed below the output directory, so it cannot be allowed to climb out of it.
+    let mut depth = 0;
+    for component in Path::new(&generated_file.path).components() {
+        match component {
+            Component::Normal(_) => depth += 1,
+            Component::ParentDir => depth -= 1,
+            _ => {}
+        }
+        if depth < 0 {
+            let message = "the path of a generated file cannot lead out of the output directory";
+            return Err(Error::new(ErrorKind::InvalidInput, message));
+        }
+    }
 
     // Compute the output path. If an output directory was specified, prepend it to the generated file's relative path.
     let generated_file_path = match output_dir {
